@@ -127,3 +127,22 @@ Definition names_ok_m (d : bdesign) : bool :=
 End LowerM.
 
 Definition no_pairs (d : bdesign) : bool := forallb (fun m => forallb (fun x => negb (bi_pair x)) (bm_insts m)) (bd_mods d).
+
+(* ---- decidable well-formedness used by the theorems about the model of the bundle passes (Props/C01G.v); all of it follows
+   from Spec/C01BWf.v:wf_bdesign except the last item, which Python cannot violate (keyword arguments / dict keys are distinct):
+   per module: scalar ports and bundle instances have pairwise distinct names; every bundle definition tree is well formed
+   (member names distinct at every level); the ports of a leaf device have distinct names; the member names of every
+   anonymous bundle are pairwise distinct, at every nesting level ---- *)
+Fixpoint bexpr_nodup (bx : bexpr) : bool :=
+  match bx with
+  | BXAnon ms => BundleSpec.snodup (map fst ms) &&
+                 (fix go (l : list (name * bexpr)) : bool := match l with [] => true | (_, sub) :: l' => bexpr_nodup sub && go l' end) ms
+  | _ => true
+  end.
+
+Definition bp_wf_module (m : bmodule) : bool :=
+  nodup_names (map fst (bm_ports m) ++ map (fun pt : bool * btree => BundleSpec.bname (snd pt)) (bm_bundles m)) &&
+  forallb (fun pt : bool * btree => BundleSpec.wf_tree (snd pt)) (bm_bundles m) &&
+  forallb (fun x => dev_names_ok x && forallb (fun c : name * bexpr => bexpr_nodup (snd c)) (bi_conns x)) (bm_insts m).
+
+Definition bp_wf (d : bdesign) : bool := forallb bp_wf_module (bd_mods d).
